@@ -695,7 +695,7 @@ func c13Faults(c *core.Ctx) {
 				if err != nil {
 					break
 				}
-				cmd := exec.Command(filepath.Join(core.VerifDir, "work", "bin", "goawk"), fp.src)
+				cmd := exec.Command(core.GoawkBin(), fp.src)
 				cmd.Stdin = strings.NewReader(fp.input)
 				cmd.Stdout = f
 				err = cmd.Run()
@@ -747,7 +747,7 @@ func c13Replay(c *core.Ctx, raw json.RawMessage) {
 				continue
 			}
 			f, _ := os.OpenFile("/dev/full", os.O_WRONLY, 0)
-			cmd := exec.Command(filepath.Join(core.VerifDir, "work", "bin", "goawk"), fp.src)
+			cmd := exec.Command(core.GoawkBin(), fp.src)
 			cmd.Stdin = strings.NewReader(fp.input)
 			cmd.Stdout = f
 			if cmd.Run() == nil {
